@@ -32,6 +32,7 @@ func c01(c *Ctx) {
 	c01users(c)
 	// the rolling window whose sums the decision is computed from (same structure rules as C16.R5)
 	c16windowAs(c, "C01.R7")
+	c01registry(c)
 }
 
 func paramByType(f *ssa.Function, ts string) *ssa.Parameter { return paramOfType(f, ts) }
@@ -1109,4 +1110,95 @@ func c01users(c *Ctx) {
 		})
 	}
 	c.R.Min(rule, 5, "BreakerHandler, 3 zRPC interceptors, convertError")
+}
+
+// c01registry: the named-breaker registry hands every caller of one name the same instance.
+func c01registry(c *Ctx) {
+	rule := "C01.R8"
+	if f := c.fn(rule, brkPkg, "GetBreaker"); f != nil {
+		ps := c.paths(rule, f, px.Config{})
+		c.forall(rule, brkPkg+".GetBreaker", "a breaker is stored under a name only while the write lock is held and only after a lookup inside that same lock hold found the name absent; the instance returned is the registered one (concurrent first users must not get separate windows)", f, ps, func(p *px.Path) (bool, string) {
+			w := 0
+			var lastMissInHold bool
+			var stored *px.Sym
+			for i := range p.Events {
+				e := &p.Events[i]
+				switch {
+				case e.Kind == px.EvCall && e.Call.Obj() != nil && e.Call.Obj().Name() == "Lock":
+					w++
+					lastMissInHold = false
+				case e.Kind == px.EvCall && e.Call.Obj() != nil && e.Call.Obj().Name() == "Unlock":
+					w--
+					lastMissInHold = false
+				case e.Kind == px.EvLookup && w > 0:
+					if okS := findExtract(p, e.Res, 1); okS != nil && p.Abs(okS).K == px.False {
+						lastMissInHold = true
+					}
+				case e.Kind == px.EvMapUpdate:
+					if w <= 0 {
+						return false, "the registry is written without the write lock"
+					}
+					if !lastMissInHold {
+						return false, "a breaker is registered without re-checking, under the write lock, that the name is still absent: two concurrent first users each create and register their own instance — calls recorded on the loser vanish from the window (and a NoBreakerFor entry can be overwritten)"
+					}
+					if !isParam(e.Key, f.Params[0]) {
+						return false, "registered under another name"
+					}
+					stored = e.Val.Strip(false)
+				}
+			}
+			if p.Exit == px.ExitReturn && stored != nil && p.Results[0].Strip(false) != stored {
+				return false, "the returned breaker is not the one that was registered"
+			}
+			return true, ""
+		})
+	}
+	// in-tree users that have a context use the context-aware entry point with that context
+	sites := 0
+	var bad []string
+	ctxT := "context.Context"
+	for _, pk := range c.P.Pkgs {
+		rel := strings.TrimPrefix(pk.PkgPath, mod)
+		if rel == brkPkg {
+			continue
+		}
+		for _, fn := range c.P.AllFuncs(rel) {
+			for _, b := range fn.Blocks {
+				for _, ins := range b.Instrs {
+					call, ok := ins.(ssa.CallInstruction)
+					if !ok {
+						continue
+					}
+					cc := call.Common()
+					var callee *types.Func
+					if cc.IsInvoke() {
+						callee = cc.Method
+					} else if sc := cc.StaticCallee(); sc != nil {
+						callee, _ = sc.Object().(*types.Func)
+					}
+					if callee == nil || callee.Pkg() == nil || callee.Pkg().Path() != mod+brkPkg || !strings.HasPrefix(callee.Name(), "Do") {
+						continue
+					}
+					sites++
+					if strings.HasSuffix(callee.Name(), "Ctx") {
+						continue
+					}
+					// a context in scope? (parameters of the function or of its enclosing functions)
+					hasCtx := false
+					for g := fn; g != nil; g = g.Parent() {
+						for _, prm := range g.Params {
+							if typeString(prm.Type()) == ctxT {
+								hasCtx = true
+							}
+						}
+					}
+					if hasCtx {
+						bad = append(bad, fmt.Sprintf("%s.%s calls breaker.%s although a context is in scope (%s)", rel, fn.Name(), callee.Name(), c.P.Pos(ins.Pos())))
+					}
+				}
+			}
+		}
+	}
+	o := c.R.Check(len(bad) == 0 && sites >= 10, rule, "breaker users with a context", "every in-tree call of a breaker Do* entry point from code that has a context.Context uses the ...Ctx variant (a call whose context is already done is neither run nor recorded — otherwise expired-context calls count as failures of a healthy callee and open the breaker)", "-", strings.Join(bad, "; "), bad, 0)
+	o.Sites = sites
 }
